@@ -22,7 +22,16 @@ func main() {
 	repo := flag.String("repo", "/repo", "repository root")
 	out := flag.String("out", "/verif", "output root (evidence/, replay/, KNOWN_FINDINGS.txt)")
 	verbose := flag.Bool("v", false, "print every obligation")
+	dumpFuncs := flag.Bool("dump-funcs", false, "print the canonical names of all repository functions (used to regenerate the known-function table)")
+	noInline := flag.Bool("no-inline", false, "do not inline unknown helper functions")
 	flag.Parse()
+	if *dumpFuncs {
+		p := engine.Load(*repo)
+		for _, f := range p.AllFuncs {
+			fmt.Println(engine.FuncName(f))
+		}
+		return
+	}
 	if *prop == "" {
 		fmt.Fprintln(os.Stderr, "usage: abcheck -property Cnn [-tier quick|thorough] [-repo dir] [-out dir] [-v]")
 		os.Exit(2)
@@ -43,6 +52,13 @@ func main() {
 	}()
 	started := time.Now()
 	p := engine.Load(*repo)
+	var inlined []string
+	if !*noInline {
+		inlined = p.InlineUnknown(rules.KnownFuncs)
+		if len(inlined) > 0 {
+			fmt.Printf("note: %d call(s) of helper functions unknown to the rules were inlined before analysis: %s\n", len(inlined), strings.Join(dedup(inlined), "; "))
+		}
+	}
 	var ids []string
 	if *prop == "all" {
 		for id := range rules.All {
@@ -64,6 +80,7 @@ func main() {
 			t0 = started
 		}
 		rep := engine.NewReport(p, id, *tier)
+		rep.Extra["inlined_unknown_helpers"] = dedup(inlined)
 		ctx := rules.NewCtx(p, rep, *tier)
 		f(ctx)
 		if *verbose {
@@ -85,4 +102,16 @@ func isFlagSet(name string) bool {
 		}
 	})
 	return set
+}
+
+func dedup(ss []string) []string {
+	seen := map[string]bool{}
+	out := []string{}
+	for _, s := range ss {
+		if !seen[s] {
+			seen[s] = true
+			out = append(out, s)
+		}
+	}
+	return out
 }
